@@ -16,7 +16,7 @@ Not decided: real-world correctness of the table's offsets; 12:xx am/pm (exclude
 import re
 
 from ..facts import render, strip, walk, fn_key, AnchorLost, alternatives, cond_str, short
-from ..common import result_alternatives, canon_field_reads
+from ..common import result_alternatives, canon_field_reads, value_alternatives
 from ..evalint import try_ev, ev, Unknown
 from .. import model
 from . import C09
@@ -143,6 +143,13 @@ def z1_protocol(ctx):
         inner = canon_field_reads(inner)
         kind = inner[1].rsplit('::', 1)[1]
         val, zone = render(inner[2][0]), render(inner[2][1])
+        # a value read through a helper that hands back an enum of the cases: the alternative the projection is evaluated on
+        va = [render(canon_field_reads(a_)) for a_, _c in value_alternatives(b, inner[2][0], conds)]
+        if len(set(va)) == 1:
+            val = va[0]
+        za = [render(canon_field_reads(a_)) for a_, _c in value_alternatives(b, inner[2][1], conds)]
+        if len(set(za)) == 1:
+            zone = za[0]
         getter = {'Time': 'get_time', 'Date': 'get_date', 'DateTime': 'get_date_time'}.get(kind)
         if getter and re.fullmatch(r'tools::%s\("time", fields\) as Some\.0\.#?0' % getter, val):
             kinds[kind] = True
